@@ -31,7 +31,7 @@ SHARDS = {"quick": 8, "thorough": 16}
 
 
 @st.composite
-def cases(draw, modes=("exposure", "exposure", "exposure_debug", "obs_seq", "obs_dask")):
+def cases(draw, modes=("exposure", "exposure", "exposure_debug", "obs_seq", "obs_dask", "obs_seq", "obs_dask", "calibration")):
     mode = draw(st.sampled_from(list(modes)))
     spec = draw(pipeline_specs(min_groups=0))
     steps = draw(st.integers(1, 4))
@@ -43,6 +43,9 @@ def cases(draw, modes=("exposure", "exposure", "exposure_debug", "obs_seq", "obs
         "det_type": draw(st.sampled_from(["CCD", "CMOS", "MKID", "APD"])),
         "non_destructive": draw(st.booleans()),
     }
+    if mode == "calibration":
+        case["steps"] = 1  # a calibration with the default readout evaluates one readout per candidate
+        case["pygmo_seed"] = draw(st.integers(0, 100000))
     if mode.startswith("obs"):
         case["temps"] = draw(st.lists(st.sampled_from([50.0, 100.0, 150.0, 200.0, 250.0]), min_size=1, max_size=3, unique=True))
     return case
@@ -95,6 +98,17 @@ def body(case, rec):
     run_spec = {"detector": det_spec, "pipeline": spec, "times": times, "non_destructive": case["non_destructive"]}
     if mode.startswith("exposure"):
         run_spec["mode"] = {"kind": "exposure"}
+    elif mode == "calibration":
+        import numpy as np
+
+        np.save(rec.tmp / "target.npy", np.zeros((3, 4)))
+        run_spec.pop("times")
+        run_spec.pop("non_destructive")
+        run_spec["mode"] = {"kind": "calibration", "target_data_path": [str(rec.tmp / "target.npy")],
+                            "fitness_function": {"func": "pyxel.calibration.fitness.sum_of_abs_residuals"},
+                            "algorithm": {"type": "sade", "generations": 1, "population_size": 8},
+                            "parameters": [{"key": "detector.environment.temperature", "values": "_", "boundaries": [100.0, 200.0]}],
+                            "result_type": "pixel", "target_fit_range": [0, 3, 0, 4], "result_fit_range": [0, 3, 0, 4], "pygmo_seed": case["pygmo_seed"]}
     else:
         run_spec["mode"] = {"kind": "observation", "with_dask": mode == "obs_dask",
                             "parameters": [{"key": "detector.environment.temperature", "values": case["temps"]}]}
@@ -110,7 +124,19 @@ def body(case, rec):
         if r["name"] != r["tag"]:
             rec.fail("wrong_model_identity", f"model configured as {r['tag']} ran as {r['name']}")
             break
-    if mode.startswith("exposure"):
+    if mode == "calibration":
+        # every candidate evaluation is one whole pipeline execution on its own detector copy
+        by_eval = {}
+        for r in trace:
+            by_eval.setdefault((r["det"], r["run"]), []).append(r)
+        rec.check(len(by_eval) >= 8 or not ref, "calibration_evaluations_missing", f"{len(by_eval)} evaluations traced")
+        for key, lst in by_eval.items():
+            got = _observed(lst)
+            n_ref = len(ref)
+            ok = n_ref and len(got) % n_ref == 0 and all(canon(got[i:i + n_ref]) == canon(ref) for i in range(0, len(got), n_ref))
+            rec.check(bool(ok) or not ref, "call_list_mismatch", lambda got=got: f"calibration candidate {key[1]}: " + _diff(got, ref))
+            rec.check(all(100.0 - 1e-9 <= r["run"] <= 200.0 + 1e-9 for r in lst), "run_received_wrong_parameter", f"{key[1]}")
+    elif mode.startswith("exposure"):
         obs = _observed(trace)
         rec.check(canon(obs) == canon(ref), "call_list_mismatch", lambda: _diff(obs, ref))
         rec.check(len({r["det"] for r in trace}) <= 1, "several_detectors_in_one_run", "")
